@@ -1,4 +1,9 @@
+#[cfg(not(goml_verif))]
 use std::{collections::HashMap, num::IntErrorKind};
+#[cfg(goml_verif)]
+use std::num::IntErrorKind;
+#[cfg(goml_verif)]
+use crate::verif_hash::HashMap;
 
 use diagnostics::{Severity, Stage};
 use parser::{Diagnostic, Diagnostics, syntax::MySyntaxNodePtr};
